@@ -236,6 +236,11 @@ func H19_mouse() {
 		s.DisableMouse()
 		flags = 0
 	}
+	// enabled modes survive a Suspend/Resume cycle
+	if vsymChoice("cycle", 2) == 1 {
+		_ = s.Suspend()
+		_ = s.Resume()
+	}
 	x, y := vsymInt("x"), vsymInt("y")
 	vsymAssume(vsymAnd(vsymAnd(x >= 0, x < 100), vsymAnd(y >= 0, y < 100)))
 	code := vsymChoice("code", 4) // 0 motion, 1 left, 2 middle, 3 right
@@ -328,6 +333,10 @@ func H19_key() {
 		}
 	case 2: // paste bracket
 		s.EnablePaste()
+		if vsymChoice("cycle", 2) == 1 {
+			_ = s.Suspend()
+			_ = s.Resume()
+		}
 		start := vsymBool("start")
 		js.Global().Call("onPaste", start)
 		if s.HasPendingEvent() {
